@@ -305,8 +305,51 @@ func init() {
 		return r
 	}), "G_wdst", "G_npend")
 
+	// ---- encoding/binary: opaque here (no panic for fixed-size data; error or nil) ------
+	reg("encoding/binary.Write", "appends the fixed-size encoding of data to w or returns an error; does not panic for fixed-size values", ret(func(e *Exec, st *State, fr *Frame, site ssa.Instruction, args []Val) Val {
+		w := e.term(args[0])
+		declFun("bin_enc", SStr, SIface, SIface)
+		cur := Select(ghostStr(st, "bufdata"), IfRef(w))
+		e.setGhost(st, "bufdata", SStr, IfRef(w), e.strCat(cur, App("bin_enc", SStr, e.term(args[1]), e.term(args[2]))))
+		return e.freshErr(st, false)
+	}), "G_bufdata")
+	reg("encoding/binary.Read", "fills *data from r or returns an error; does not panic for pointers to fixed-size values and slices", func(e *Exec, st *State, fr *Frame, site ssa.Instruction, args []Val, k contFn) bool {
+		// the pointee is overwritten with unspecified bytes
+		e.havocMod(st, map[string]Sort{"*": ""})
+		k(st, e.freshErr(st, false))
+		return false
+	}, "*")
+	// ---- sync: ghost lock sets of the current thread (T-LOCK) ---------------------------
+	lockOp := func(ghost string, acquire bool, what string) externFn {
+		return func(e *Exec, st *State, fr *Frame, site ssa.Instruction, args []Val, k contFn) bool {
+			m := recvNonNil(e, st, fr, site, args[0])
+			held := Select(ghostBool(st, ghost), m)
+			if acquire {
+				e.check(st, fr, "LOCK.held", site, what+" of a lock this thread already holds | "+e.P.srcLine(site.Pos()), Not(Or(Select(ghostBool(st, "held"), m), Select(ghostBool(st, "rheld"), m))))
+				e.setGhost(st, ghost, SBool, m, TTrue)
+				e.lockAcquired(st, fr, site, m, ghost == "held")
+			} else {
+				e.check(st, fr, "LOCK.held", site, what+" of a lock this thread does not hold | "+e.P.srcLine(site.Pos()), held)
+				e.lockReleasing(st, fr, site, m, ghost == "held")
+				e.setGhost(st, ghost, SBool, m, TFalse)
+			}
+			k(st, TupleVal{})
+			return false
+		}
+	}
+	reg("(*sync.Mutex).Lock", "acquires the mutex (CSL rule: critical sections are serialised; lock invariant assumed)", lockOp("held", true, "Lock"), "G_held")
+	reg("(*sync.Mutex).Unlock", "releases the mutex (lock invariant must hold)", lockOp("held", false, "Unlock"), "G_held")
+	reg("(*sync.RWMutex).Lock", "acquires the write lock", lockOp("held", true, "Lock"), "G_held")
+	reg("(*sync.RWMutex).Unlock", "releases the write lock", lockOp("held", false, "Unlock"), "G_held")
+	reg("(*sync.RWMutex).RLock", "acquires a read lock", lockOp("rheld", true, "RLock"), "G_rheld")
+	reg("(*sync.RWMutex).RUnlock", "releases a read lock", lockOp("rheld", false, "RUnlock"), "G_rheld")
 	// ---- reflect (only isNil) ---------------------------------------------------------
-	for _, n := range []string{"reflect.TypeOf", "reflect.ValueOf", "iface:reflect.Type.Kind", "(reflect.Value).IsNil"} {
+	reg("reflect.TypeOf", "non-nil Type for a non-nil argument", ret(func(e *Exec, st *State, fr *Frame, site ssa.Instruction, args []Val) Val {
+		r := e.freshVal(st, "rtype", sigOf(site).Results().At(0).Type()).(*Term)
+		e.assume(Eq(Eq(IfTid(r), IntLit(0)), Eq(IfTid(e.term(args[0])), IntLit(0))))
+		return r
+	}))
+	for _, n := range []string{"reflect.ValueOf", "iface:reflect.Type.Kind", "(reflect.Value).IsNil"} {
 		reg(n, "opaque; assumed not to panic for the kinds isNil passes", fresh)
 	}
 	reg("sort.Strings", "sorts the slice in place (result: sorted permutation; modelled as havoc of the elements)", ret(func(e *Exec, st *State, fr *Frame, site ssa.Instruction, args []Val) Val {
@@ -395,3 +438,7 @@ func (e *Exec) wireFresh(st *State, old *Snapshot, q *Term) *Term {
 	pt := ctx.resolveType(pf.Params[0].Type)
 	return ctx.callPred(pf, ctx.pkg, map[string]*specVar{pf.Params[0].Name: {v: q, t: pt}})
 }
+
+// hooks for lock invariants (filled in by lock.go)
+func (e *Exec) lockAcquired(st *State, fr *Frame, site ssa.Instruction, m *Term, exclusive bool)  { e.onLock(st, fr, site, m, exclusive, true) }
+func (e *Exec) lockReleasing(st *State, fr *Frame, site ssa.Instruction, m *Term, exclusive bool) { e.onLock(st, fr, site, m, exclusive, false) }
